@@ -67,7 +67,8 @@ def report_failures(chk, r, w, cmd):
     for f in r["failures"]:
         chk.violation(dict(kind="roundtrip", w=w, dir=f["dir"], outcome="panic" if f.get("panic") else "differs"),
                       dict(kind="roundtrip", w=w, dir=f["dir"], x=f["x"], x_hex=f["x_hex"], mid=f["mid"],
-                           back=f["back"], panic=f.get("panic"), found_by=cmd))
+                           back=f["back"], panic=f.get("panic"), found_by=cmd,
+                           **({"called_just_before": f["called_just_before"]} if f.get("called_just_before") else {})))
     nf = r["fail_hash_then_inverse"] + r["fail_inverse_then_hash"]
     chk.add("roundtrip_failures", nf)
     return nf
@@ -172,6 +173,12 @@ def run(chk):
         chk.cov["boundary_structured_roundtrips_%d" % w] = rb["n"]
         log("[C19] code W=%d boundary-structured: %d words both directions, failures %d/%d" % (
             w, rb["n"], rb["fail_hash_then_inverse"], rb["fail_inverse_then_hash"]))
+    # 3c. purity: pairs that share their low half / high half / all but one bit, evaluated back to back
+    for w in (64, 32):
+        rh = code_roundtrips(chk, "history%d" % w, ["history", "w=%d" % w, "n=%d" % (1000000 if quick else 10000000), "seed=%d" % chk.seed], w)
+        chk.add("evaluations", rh["n"])
+        chk.cov["back_to_back_pairs_%d" % w] = rh["n"]
+        log("[C19] code W=%d back-to-back pairs: %d, failures %d/%d" % (w, rh["n"], rh["fail_hash_then_inverse"], rh["fail_inverse_then_hash"]))
     # 4. code = spec on recorded words (and the round trips on those words)
     code_vs_spec(chk, 64, 1000 if quick else 10000, chk.seed)
     code_vs_spec(chk, 32, 400 if quick else 3000, chk.seed)
@@ -199,7 +206,8 @@ def run(chk):
 def replay(chk, path):
     sc = json.load(open(path))["scenario"]
     build_harness("c19")
-    rc, out = harness("c19", ["one", "w=%d" % sc["w"], "x=%s" % sc["x"]])
+    pre = ["before=%d" % int(sc["called_just_before"], 16)] if sc.get("called_just_before") else []
+    rc, out = harness("c19", ["one", "w=%d" % sc["w"], "x=%s" % sc["x"]] + pre)
     r = json.loads(out.strip().splitlines()[-1])
     nf = r["fail_hash_then_inverse"] + r["fail_inverse_then_hash"]
     log("x=%s hash(x)=%s inverse(x)=%s" % (r["x_hex"], r["hash"], r["inverse"]))
